@@ -29,6 +29,8 @@ import traceback
 from pathlib import Path
 
 VERIF = Path(__file__).resolve().parent.parent
+# evidence and replay files go to /verif unless a scratch run (tools/mutate.sh, tools/mutscan.py) redirects them
+OUT = Path(os.environ.get("VERIF_OUT") or VERIF)
 REPO = os.environ.get("VERIF_REPO", "/repo")
 KNOWN_FILE = VERIF / "known_findings.json"
 
@@ -310,7 +312,7 @@ class Runner:
         printed = 0
         seen_sig = set()
         replay_paths = []
-        rdir = VERIF / "replays" / cid
+        rdir = OUT / "replays" / cid
         for case, v in viol:
             sk = json.dumps(v["sig"], sort_keys=True)
             if sk in seen_sig:
@@ -393,8 +395,8 @@ class Runner:
             "wall_s": round(wall, 2),
             "violations": len(seen_sig),
         }
-        edir = VERIF / "evidence"
-        edir.mkdir(exist_ok=True)
+        edir = OUT / "evidence"
+        edir.mkdir(parents=True, exist_ok=True)
         (edir / f"{cid}.json").write_text(json.dumps(ev, indent=1, sort_keys=True))
 
         print(
